@@ -24,10 +24,13 @@ META = re.compile(r"[<>&\"']")
 
 
 EDGE_CHARS = ["\x01", "\x0b", "\x1f", "\ufffe", "\uffff", "\x00", "\x08", "\x0c"]
-EDGE_HEADERS = ["bind::1x", "bind::a b", "body::", "body::x y", "instance::9", "bind::foo:bar", "body::zz:q", "instance::nope:x", "bind::a:b:c"]
-EDGE_SETTINGS = ["attribute::", "attribute::p:q", "attribute::1a", "attribute::a b", "attribute::und:x"]
-EDGE_NAMESPACES = ["foo=", 'foo=""', 'ok="http://ok.example" bad=', "=http://x", 'a="http://a" a="http://b"']
-EDGE_NAMES = ["foo:q1", "und:x", "odk:q", "jr:n", "a:b"]
+EDGE_HEADERS = ["bind::1x", "bind::a b", "body::", "body::x y", "instance::9", "bind::foo:bar", "body::zz:q", "instance::nope:x", "bind::a:b:c",
+                "bind:::foo", "body:::foo", "instance:::foo", "body::tag", "body::xmlns:q", "bind::xml:lang", "instance::xmlns", "body::ref", "bind::nodeset"]
+EDGE_SETTINGS = ["attribute::", "attribute::p:q", "attribute::1a", "attribute::a b", "attribute::und:x", "attribute:::foo", "attribute::xmlns:zz", "attribute::xmlns"]
+EDGE_NAMESPACES = ["foo=", 'foo=""', 'ok="http://ok.example" bad=', "=http://x", 'a="http://a" a="http://b"', 'xmlns="http://example.com/x"',
+                   'xml="http://example.com/x"', 'foo="http://www.w3.org/2000/xmlns/"', 'foo="http://www.w3.org/XML/1998/namespace"',
+                   'q="http://example.org/ns?version=1"', 'a="http://a.example/<b>"', 'a="http://a.example/&amp;"', "1a=http://x.example", "a:b=http://x.example"]
+EDGE_NAMES = ["foo:q1", "und:x", "odk:q", "jr:n", "a:b", "xmlns:foo", "xml:foo", "h:html", "orx:meta", ":x", "x:", "a\n"]
 
 
 @st.composite
@@ -66,7 +69,7 @@ def _cases(draw):
                 n["c"]["name"] = g.pick(EDGE_NAMES)
                 edge = "prefixed-name"
         elif kind == "header" and qs:
-            g.pick(qs)["c"][g.pick(EDGE_HEADERS)] = "v"
+            g.pick(qs)["c"][g.pick(EDGE_HEADERS)] = g.pick(["v", "my tag", "1st", "a<b", "select1"])
             edge = "attribute-header"
         else:
             form.setdefault("settings", {})[g.pick(EDGE_SETTINGS)] = "v"
